@@ -20,6 +20,13 @@ var c03Exempt = map[string]string{
 	"PutActions/GetBucketPolicy":    "inside the governance-bypass test; result only feeds VerifyBucketPolicy and the call is itself behind VerifyAccess",
 }
 
+// Auxiliary backend reads that sit behind a stricter decision on the same bucket and
+// are not themselves the decided operation (excluded from the T-ACTION pairing).
+var c03Aux = map[string]string{
+	"PutActions/GetBucketPolicy":                  "governance-bypass test: reads the policy only to evaluate s3:BypassGovernanceRetention, behind the PutObjectRetention decision",
+	"PutBucketActions/GetBucketOwnershipControls": "PutBucketAcl branch: reads the bucket's own ownership setting behind the PutBucketAcl (WRITE_ACP) decision",
+}
+
 func handlerShort(f *ssa.Function) string {
 	for f.Parent() != nil {
 		f = f.Parent()
